@@ -10,7 +10,11 @@ argv literals) + correspondence of the model against
   hostkey-loopback the real paramiko / asyncssh libraries against in-process asyncssh servers that
                    record every authentication attempt they receive,
   system-argv      _build_open_cmd, a stand-in `ssh` on PATH recording argv, and (when an ssh
-                   binary exists) the real ssh client against the loopback servers.
+                   binary exists) the real ssh client against the loopback servers,
+  hostkey-history  (c10_hist.py) ONE transport / driver object opened, closed and opened again while the
+                   server behind the address is exchanged and / or known_hosts is edited in place: over the
+                   stubs (exact traces), the real libraries and the real ssh binary against recording servers
+                   behind a switchable address, and the stand-in ssh; model: run_history / sys_history.
 The property itself is decided on the implementation's observations by an oracle that does not
 use the model (independent known_hosts reader; Python getopt with OpenSSH's option string)."""
 import asyncio
@@ -418,10 +422,9 @@ class Stubs:
         self.tp._ParamikoTransport, self.t2.Session, self.ta.connect = self.saved
         self.loop.close()
 
-    def run(self, lib, sc, khfile):
-        """run the real transport's open() over the stub library; returns the recorded trace"""
+    def make(self, lib, sc, khfile):
+        """the real transport object over the stub library, configured from the scenario's fixed part"""
         from scrapli.transport.base.base_transport import BaseTransportArgs
-        Cur.sc, Cur.trace, Cur.connect_kwargs = sc, [], None
         bta = BaseTransportArgs(transport_options={}, host=HOST, port=22, timeout_socket=5, timeout_transport=5)
         kw = dict(auth_username="u" if sc["has_user"] else "", auth_password="SECRETPW" if sc["has_pw"] else "",
                   auth_private_key=self.client_key_path if sc["has_key"] else "", auth_strict_key=sc["strict"],
@@ -429,17 +432,27 @@ class Stubs:
         mod = {"Paramiko": self.tp, "Ssh2": self.t2, "Asyncssh": self.ta}[lib]
         cls = {"Paramiko": "ParamikoTransport", "Ssh2": "Ssh2Transport", "Asyncssh": "AsyncsshTransport"}[lib]
         t = getattr(mod, cls)(bta, mod.PluginTransportArgs(**kw))
+        if lib != "Asyncssh":
+            t.socket = StubSocket()
+        return t
+
+    def open_on(self, t, lib, sc):
+        """one open() of the transport object [t] while the stub library acts out [sc]; returns the recorded trace"""
+        Cur.sc, Cur.trace, Cur.connect_kwargs = sc, [], None
         try:
             if lib == "Asyncssh":
                 self.loop.run_until_complete(t.open())
             else:
-                t.socket = StubSocket()
                 t.open()
             ev("Opened")
         except Exception as e:  # noqa
             Cur.trace.append(exc_code(e))
         trace, Cur.trace = Cur.trace, None
         return trace, Cur.connect_kwargs
+
+    def run(self, lib, sc, khfile):
+        """run the real transport's open() over the stub library; returns the recorded trace"""
+        return self.open_on(self.make(lib, sc, khfile), lib, sc)
 
 
 def oracle_trace(sc, trace, key_bad):
@@ -828,7 +841,7 @@ def run(rep):
         if c["scenario"]["strict"] and c["relation"] == "other" and c["scenario"]["handshake_ok"]:
             rep.sample({k: c[k] for k in ("lib", "scenario", "known_hosts", "trace")})
             break
-    bad_order, log = common.eval_cases(rep.workdir, "cases_c10_order", HEADER_ORDER, order_terms, "chk")
+    bad_order, log = common.eval_cases(rep.workdir, "cases_c10_order", HEADER_ORDER, order_terms, "chk", shard=120)
     rep.coverage["correspondence_order"] = {
         "suite": "hostkey-order", "cases": len(order_terms), "exhaustive_scenario_space": exhaustive_order,
         "ssh2_library": ssh2_kind + (" package (ssh2-python is not installed: the real scrapli ssh2 transport ran over a stand-in package; "
@@ -958,7 +971,7 @@ def run(rep):
             rep.sample({k: c[k] for k in ("lib", "server_key", "strict_arg", "relation", "format", "method", "known_hosts", "final",
                                           "server_recorded")})
             break
-    bad_loop, log2 = common.eval_cases(rep.workdir, "cases_c10_loop", HEADER_LOOP, loop_terms, "chk")
+    bad_loop, log2 = common.eval_cases(rep.workdir, "cases_c10_loop", HEADER_LOOP, loop_terms, "chk", shard=60)
     rep.coverage["correspondence_loopback"] = {
         "suite": "hostkey-loopback", "cases": len(loop_cases), "compared_with_model": len(loop_terms),
         "exhaustive_matrix": thorough, "model_disagreements": None if bad_loop is None else len(bad_loop),
@@ -990,7 +1003,7 @@ def run(rep):
             d[k] = d.get(k, 0) + 1
         rep.case(("argv", json.dumps(a, sort_keys=True)), nontrivial=a["strict"])
     rep.sample(argv_cases[0])
-    bad_argv, log3 = common.eval_cases(rep.workdir, "cases_c10_argv", HEADER_ARGV, argv_terms, "chk")
+    bad_argv, log3 = common.eval_cases(rep.workdir, "cases_c10_argv", HEADER_ARGV, argv_terms, "chk", shard=60)
 
     # driver level: default / explicit / non-bool strictness for every transport, file resolution, stand-in ssh on PATH
     drv_fail, drv_n, standin_n = driver_level(rep, keys, khdir, write_kh, dist)
@@ -999,6 +1012,28 @@ def run(rep):
         "suite": "system-argv", "cases": len(argv_terms), "model_disagreements": None if bad_argv is None else len(bad_argv),
         "oracle_failures": len(argv_fail), "driver_level_cases": drv_n, "stand_in_ssh_spawns": standin_n, "real_ssh_binary": real_ssh}
 
+    # ---------------------------------------------------------------------------------------------
+    # 3d. hostkey-history: ONE transport / driver object, open - close - open again while the server behind the
+    #     address and / or the known_hosts file change (stubs, loopback, stand-in ssh, real ssh)
+    # ---------------------------------------------------------------------------------------------
+    from . import c10_hist as H
+    import time as _time
+    t_h0 = _time.time()
+    hist = H.run_suite(rep, sys.modules[__name__], keys, write_kh, scrapli_entry, dist, thorough)
+    t_h1 = _time.time()
+    bad_hist, log4 = common.eval_cases(rep.workdir, "cases_c10_hist", H.HEADER_HIST, hist["terms"], "chk", shard=12)
+    rep.coverage["correspondence_history"] = {
+        "suite": "hostkey-history", "histories": hist["counts"], "compared_with_model": len(hist["terms"]),
+        "model_disagreements": None if bad_hist is None else len(bad_hist), "oracle_failures": len(hist["fails"]),
+        "real_ssh_binary": hist["real_ssh"], "wall_s": {"drive": round(t_h1 - t_h0, 1), "model_evaluation": round(_time.time() - t_h1, 1)},
+        "note": "per history ONE object is opened 2-4 times with close() in between; the oracle is applied to every open with the "
+                "known_hosts content and the presented key of that open"}
+    for c in hist["cases"]:
+        if c["kind"] == "loopback" and c["history"] == "good-swapped" and c["strict_arg"] is not False:
+            rep.sample({"suite": "hostkey-history", "lib": c["lib"], "via": c["via"], "method": c["method"], "format": c["format"],
+                        "opens": [{k: st[k] for k in ("server_key", "key_missing_or_different", "final", "server_recorded")} for st in c["steps"]]}, limit=8)
+            break
+
     rep.coverage["distribution"] = dist
     rep.coverage["generated_from"] = common.source_hashes(SOURCES)
     rep.coverage["generated"] = info
@@ -1006,7 +1041,9 @@ def run(rep):
                 "what the server accepts, library verdict), known_hosts files generated (plain/comma/hashed + noise lines), exhaustive in the thorough tier; "
                 "hostkey-loopback: (lib, server key type, server accepts, strict omitted/True/False, relation incl. two-line entries, format incl. [host]:port, "
                 "method password/key/both) + malformed known_hosts stream; system-argv: random transport arguments incl. user open_cmd options that try to "
-                "switch checking off; non-trivial = strict mode in effect (and the handshake succeeds); distinct = the full scenario tuple")
+                "switch checking off; hostkey-history: (history kind over roles genuine / other-same-type / other-type / absent per open, lib, via transport|driver, "
+                "strict, method, format) on ONE object with close() between the opens, + random histories over the stubs; "
+                "non-trivial = strict mode in effect (and the handshake succeeds); distinct = the full scenario tuple")
 
     # ---------------------------------------------------------------------------------------------
     # 4. verdicts
@@ -1020,12 +1057,19 @@ def run(rep):
     report(loop_cases, loop_fail)
     report(order_cases, order_fail)
     report(argv_cases, argv_fail)
+    shown = {}
+    for case, why in sorted(hist["fails"], key=lambda cw: ["loopback", "real-ssh", "standin", "order"].index(cw[0]["kind"])):
+        shown[case["kind"]] = shown.get(case["kind"], 0) + 1
+        if shown[case["kind"]] > 2:
+            continue
+        rep.violation("hostkey-history (%s): %s" % (case["kind"], why), {"suite": "hostkey-history", "case": case, "rerun": "./check C10 --replay <this file>"})
     for why, case in drv_fail[:4]:
         rep.violation("driver-level: " + why, {"suite": "driver-level", "case": case, "rerun": "./check C10 --replay <this file>"})
 
     for name, bad, lg, cases, dom in (("hostkey-order", bad_order, log, order_cases, None),
                                       ("hostkey-loopback", bad_loop, log2, loop_cases, loop_domain),
-                                      ("system-argv", bad_argv, log3, argv_cases, None)):
+                                      ("system-argv", bad_argv, log3, argv_cases, None),
+                                      ("hostkey-history", bad_hist, log4, hist["cases"], hist["term_case"])):
         if bad is None:
             rep.broken.append("correspondence %s (model evaluation failed)" % name)
             rep.notes.append(lg)
@@ -1037,6 +1081,11 @@ def run(rep):
     # property itself — the full loopback matrix for the libraries, an adversarial argv sweep for system
     if rep.broken and not rep.violations and not thorough:
         search_failing_input(rep, keys, write_kh)
+    if rep.broken and not rep.violations and not thorough:
+        found = H.run_suite(rep, sys.modules[__name__], keys, write_kh, scrapli_entry, {}, thorough, only_search=True)
+        for case, why in found["fails"][:2]:
+            rep.violation("search, hostkey-history (%s): %s" % (case["kind"], why),
+                          {"suite": "hostkey-history", "case": case, "rerun": "./check C10 --replay <this file>"})
 
 
 def driver_level(rep, keys, khdir, write_kh, dist):
@@ -1266,6 +1315,9 @@ def replay(path):
         bad = strict_eff and key_bad and (bool(got) or fin != EV["FailAuth"])
         print("property FAILS on this input" if bad else "property holds on this input")
         return 1 if bad else 0
+    if suite == "hostkey-history":
+        from . import c10_hist as H
+        return H.replay(sys.modules[__name__], c, workdir)
     if suite == "hostkey-order":
         keys = Keys(workdir)
         stubs = Stubs(workdir, keys.client_key_path)
@@ -1300,10 +1352,21 @@ MANIFEST = {
             "by a successful value check; the pinned asyncssh transport (known_hosts=None) is refuted by a vm_compute witness and its partial "
             "(host absent) is proved; the system transport's argv, read the way ssh(1) reads it (getopt, first value wins), always yields "
             "StrictHostKeyChecking=yes and the resolved UserKnownHostsFile in strict mode whatever user open_cmd options follow, and =no only when "
-            "auth_strict_key is False. strict_default and the call order in open() are obligations over Gen_HostKey.v regenerated from the source. "
+            "auth_strict_key is False. Histories of ONE transport object (open, close, open again, any number of opens; the presented key, the "
+            "lookup result and what the server accepts may differ at every open): run_history over step_open with the object's state = the keys "
+            "seen in its earlier handshakes; proved for every history and every start state that each open produces the events of a first open in "
+            "its own scenario (nothing remembered takes part), hence the per-open guarantee above holds at every open; the statement is refuted "
+            "(vm_compute witness open-close-open) for a transport that verifies a key remembered on the object (first seen / previous); for the "
+            "system transport every open of an object yields the same argv (open_cmd is kept), so StrictHostKeyChecking=yes / UserKnownHostsFile "
+            "hold at every open. strict_default, the call order in open() and the set of attributes the library transports store on the object "
+            "(constructor args, socket, session, channel / streams — no key, no verdict) are obligations over Gen_HostKey.v regenerated from the source. "
             "Observed, not proved: the real paramiko and asyncssh clients against in-process asyncssh servers that record every authentication "
             "attempt (a server whose key is missing from / different to known_hosts must record nothing), the argv a stand-in ssh on PATH receives, "
-            "and the real ssh binary against the same servers.",
+            "and the real ssh binary against the same servers; and the same three observers over histories: one driver / transport object (through "
+            "transport.open()/close() and through Driver.open()/close()) opened against the genuine server, closed, and re-opened while the same "
+            "address answers with another key (same type / other type), the reverse order, three opens, and known_hosts edited in place between "
+            "the opens (entry replaced, removed, added, key roll + file update) — password and key auth, plain / hashed / comma entries; the oracle "
+            "is applied to EVERY open with the file content and the presented key of that open.",
     "note": "Section variables / hypotheses: `lookup` (SSHKnownHosts parsing and lookup, owned by KnownHosts.v / C16) and `lib_verdict` (asyncssh's own "
             "known_hosts matcher) with hypothesis lib_agrees: when scrapli's lookup finds an entry, asyncssh trusts at most that entry's key — "
             "tested on every generated single-entry file, not proved; for two-line entries it is false and the property is then only observed. "
@@ -1317,7 +1380,14 @@ MANIFEST = {
             "known_hosts files with single-word lines, unknown @markers or broken |1| hashes with ValueError (fails closed, no credentials sent; the "
             "malformed stream only demands that nothing is offered, not the exception class); in strict mode KeyExchangeFailed / ConnectionLost from "
             "connect() are now ScrapliAuthenticationFailed (a server with no key of a known type fails the narrowed key exchange, nondeterministically "
-            "as either of the two).",
+            "as either of the two). Histories: the configuration of an object is fixed (arguments are not mutated between opens); what changes is the "
+            "world (server key, known_hosts content, what the server accepts). The history model is tied by exact traces over the stubs "
+            "(paramiko, ssh2 stand-in, asyncssh), by projection per open on loopback and by argv per open for the stand-in ssh; the real-ssh "
+            "histories are oracle-only (ssh's own known_hosts handling is outside the model). After a FAILED open the harness closes the library "
+            "session and the socket itself, as in the single-open suite: scrapli's paramiko close() only tears down when a channel exists, and a "
+            "re-open over the socket left behind runs into paramiko's banner timeout (15 s, ScrapliConnectionNotOpened, nothing offered) — a "
+            "lifecycle matter outside C10, kept out of the histories. The address whose server is exchanged is a TCP forwarder in front of the "
+            "recording servers (c10_loopback.Loopback.switch).",
     "technique": "Coq proofs by case analysis over an event-trace model + generated-definition obligations + vm_compute correspondence against stubbed "
                  "and real (loopback) SSH libraries with recording servers",
 }
